@@ -325,8 +325,10 @@ class CommandManager(object):
         with self.plock:
             self.pause.remove(threading.current_thread().ident)
             self.plock.notify()
-            with self.qlock:
-                self.qlock.notify_all()
+        # Do not hold plock while taking qlock: wait_for_cmd takes them in
+        # the opposite order.
+        with self.qlock:
+            self.qlock.notify_all()
 
     def get_result(self, lock_id):
         ''' get the result of a previously queued command '''
